@@ -171,6 +171,12 @@ func findEndTime(moov *mp4.MoovBox, durationMS int) (endTime, endTimescale uint6
 		if !foundSyncFrame {
 			return 0, 0, fmt.Errorf("did not find any syncframe at or after time")
 		}
+	} else {
+		// Without stss box all samples are sync samples, so crop just before the sample at or after the time
+		lastSampleNr--
+	}
+	if lastSampleNr == 0 {
+		return 0, 0, fmt.Errorf("no sample before the first sync frame at or after time")
 	}
 	lastTime, lastDur := stts.GetDecodeTime(lastSampleNr)
 	endTime = lastTime + uint64(lastDur)
